@@ -171,16 +171,16 @@ def searchL (x : Array K) (n : Nat) (t : K) : Nat :=
   else if x.getD (n - 1) 0 ≤ t then n
   else (List.range n).foldl (fun cnt i => if x.getD i 0 ≤ t then cnt + 1 else cnt) 0
 
-/-- `SimTK_splder_(ider, m, n, t, x, c, l, q)`: value (`ider = 0`) or `ider`-th derivative at `t` of the
+/-- The body of `SimTK_splder_(ider, m, n, t, x, c, l, q)` after the interval index `l` has been found: value (`ider = 0`) or `ider`-th derivative at `t` of the
 natural spline of order `2m` with knots `x[1..n]` and B-spline coefficients `c[1..n]`.  Arrays are
 addressed 1-based exactly as in the f2c source (`q`, `x`, `c` shifted by one). -/
-def splder (ofNat : Nat → K) (ider m n : Nat) (t : K) (x c : Array K) : K := Id.run do
+def splderAt (ofNat : Nat → K) (ider m n : Nat) (l0 : Nat) (t : K) (x c : Array K) : K := Id.run do
   let X : Int → K := fun i => x.getD (i - 1).toNat 0
   let C : Int → K := fun i => c.getD (i - 1).toNat 0
   let m2 : Int := 2 * (m : Int)
   let k : Int := m2 - (ider : Int)
   if k < 1 then return 0
-  let l : Int := (searchL x n t : Nat)
+  let l : Int := (l0 : Nat)
   let tt := t
   let mp1 : Int := m + 1
   let npm : Int := (n : Int) + m
@@ -263,6 +263,11 @@ def splder (ofNat : Nat → K) (ider m n : Nat) (t : K) (x c : Array K) : K := I
     for j0 in [0:(m2m1 - k + 1).toNat] do
       z := z * ofNat (k + j0).toNat
   return z
+
+/-- `SimTK_splder_` proper: locate the knot interval with `search_`, then evaluate there.  (`splderAt` is everything
+after the `search_` call; it uses no comparison of scalars, so it can also be run over a polynomial ring.) -/
+def splder (ofNat : Nat → K) (ider m n : Nat) (t : K) (x c : Array K) : K :=
+  splderAt ofNat ider m n (searchL x n t) t x c
 end Spline
 
 end C41
